@@ -279,7 +279,7 @@ MUTANTS = [
      [(RE, "        new_plan = ensure_generator(list(self._msg_cache))", "        new_plan = ensure_generator(list(reversed(self._msg_cache)))")], "C04.D4"),
     ("replay happens before the suspension wait",
      [(RE, "            yield Msg(\"rewindable\", None, was_rewindable)\n            yield from rewind_plan\n", "            yield Msg(\"rewindable\", None, was_rewindable)\n"),
-      (RE, "            # wait for the future from the suspender to be released\n", "            yield from rewind_plan\n            # wait for the future from the suspender to be released\n")], "C04.D4"),
+      (RE, "            # wait for the future from the suspender to be released.  This message is not\n", "            yield from rewind_plan\n            # wait for the future from the suspender to be released.  This message is not\n")], "C04.D4"),
     ("checkpoint keeps the old cache",
      [(RE, "        self._msg_cache = deque()\n        for current_run in self._run_bundlers.values():\n            current_run.reset_checkpoint_state()", "        for current_run in self._run_bundlers.values():\n            current_run.reset_checkpoint_state()")], "C04.D2"),
     ("rewindable toggle no longer a checkpoint",
